@@ -115,17 +115,29 @@ func c14CarryBig(v uint64, neg bool, k int) (any, bool) {
 	case 4:
 		return v, !neg
 	case 5:
-		if neg {
-			return -float64(v), v <= 1<<53
+		if v > 1<<53 {
+			return nil, false // not exactly representable: excluded before converting
 		}
-		return float64(v), v <= 1<<53
+		if neg {
+			return -float64(v), true
+		}
+		return float64(v), true
 	case 6:
 		if neg {
-			return int32(-int64(v)), v <= 1<<31
+			if v > 1<<31 {
+				return nil, false
+			}
+			return int32(-int64(v)), true
 		}
-		return int32(v), v <= 1<<31-1
+		if v > 1<<31-1 {
+			return nil, false
+		}
+		return int32(v), true
 	case 7:
-		return uint32(v), !neg && v <= 1<<32-1
+		if neg || v > 1<<32-1 {
+			return nil, false
+		}
+		return uint32(v), true
 	default:
 		if neg {
 			return decimal128.FromInt64(-int64(v)), v <= 1<<63-1
@@ -171,7 +183,8 @@ func H_C14_extremes() {
 	// float64, so floats only take part in comparisons and selections there
 	arith := expr == "a + b" || expr == "a - b" || expr == "a * b" || expr == "sum([a, b])" || expr == "a // b" || expr == "a % b"
 	if arith && va >= 1<<52 {
-		vrtAssume(ca1 != 5 && ca2 != 5 && cb1 != 5 && cb2 != 5)
+		// float (op) float is computed in binary64: its result must be representable
+		vrtAssume(!(cb1 == 5 && (ca1 == 5 || ca2 == 5)))
 	}
 	if (expr == "a // b" || expr == "a % b") && neg {
 		return
